@@ -2,8 +2,10 @@
 (***************************************************************************)
 (* Validation of histories recorded from the real lena Cache pipelines     *)
 (* (lenaverif/cachelib.py).  Trace is a sequence of histories              *)
-(*   [vk, nc, shape, ev]   ev = sequence of events (vk: the value codes of  *)
-(*   the flow of each data version)                                        *)
+(*   [mu, vk, nc, shape, ev]   ev = sequence of events (vk: the value codes *)
+(*   of the flow of each data version; mu: the consumer modified every      *)
+(*   value in place after it had recorded it - a value that comes back      *)
+(*   with k such modifications is recorded as 10000 * k + value)            *)
 (*   [cmd, a, res, v, c, rc, pulled, wpre, wmid]                           *)
 (* cmd: new / drop / data / start / restart / next / stop / release (c = 1 in a next *)
 (* that raised: the exception object is kept); res: what the consumer    *)
@@ -19,16 +21,18 @@
 EXTENDS Cache, IOUtils
 Trace == JsonDeserialize(IOEnv.TRACE_FILE)
 VARIABLES hi, j
-tvars == <<rr, hd, lens, vk, nc, shape, held, hg, ver, file, stored, intr, ph, rc, L, eager, cont, pos, out, pulled, wpre, wmid, h, hi, j>>
+tvars == <<rr, hd, mu, memo, lens, vk, nc, shape, held, hg, ver, file, stored, intr, ph, rc, L, eager, cont, pos, out, pulled, wpre, wmid, h, hi, j>>
 Ev == Trace[hi].ev
 TInit == /\ hi \in 1..Len(Trace) /\ j = 1
-         /\ InitWith(TRUE, TRUE, Trace[hi].vk, Trace[hi].nc, Trace[hi].shape)
+         /\ InitWith(TRUE, TRUE, Trace[hi].mu, Trace[hi].vk, Trace[hi].nc, Trace[hi].shape)
 \* a run fed by cache l touches nothing before l (inside a Split, eg, the source is read by Split.run itself)
 UntouchedE(l, eg, e) == l > 0 => (eg \/ e.pulled = 0) /\ e.wpre = 0 /\ (l = 2 => e.wmid = 0)
 Untouched(l, e) == UntouchedE(l, eager, e)
 Match(e) ==
   \/ e.cmd = "new" /\ e.res = "ok" /\ New(e.rc)
-  \/ e.cmd = "drop" /\ e.c \in 1..nc /\ (file[e.c].k = "F" => e.res = "ok") /\ Drop(e.c)
+  \* drop_cache(): "remove file with cache if that exists, pass otherwise" - it never raises here (the scratch files
+  \* can always be removed): no file at all (before any run, twice in a row), a recompute=True cache
+  \/ e.cmd = "drop" /\ e.c \in 1..nc /\ e.res = "ok" /\ Drop(e.c)
   \/ e.cmd = "data" /\ ChangeData
   \/ e.cmd = "start" /\ e.res = "ok" /\ Start(e.a) /\ UntouchedE(L', eager', e)
   \/ e.cmd = "restart" /\ e.res = "ok" /\ Restart /\ UntouchedE(L', eager', e)
